@@ -391,9 +391,10 @@ def run(ctx):
         edge_list = [(0, 0, 1)]
         sim_list = [((2, 1, 1), 11, 40)]
     else:
-        mc_list = [(0, 0, 1), (1, 0, 1), (2, 0, 1), (3, 0, 1), (0, 1, 1), (1, 1, 1), (2, 1, 1), (1, 0, 2), (2, 0, 2), (0, 1, 2)]
-        real_list = [(0, 0, 1), (1, 0, 1), (2, 0, 1), (0, 1, 1), (1, 1, 1)]
-        live_list = [(0, 0, 1), (1, 0, 1), (0, 1, 1), (1, 1, 1)]
+        # largest first, so that the long runs overlap
+        mc_list = [(2, 1, 1), (3, 0, 1), (1, 1, 1), (2, 0, 1), (1, 0, 2), (0, 1, 2), (0, 1, 1), (1, 0, 1), (0, 0, 1)]
+        real_list = [(1, 1, 1), (1, 0, 1), (0, 1, 1), (0, 0, 1)]
+        live_list = [(1, 0, 1), (0, 1, 1), (0, 0, 1)]
         edge_list = [(0, 0, 1), (1, 0, 1), (0, 1, 1)]
         sim_list = [((1, 1, 1), 11, 150), ((2, 1, 1), 12, 200), ((3, 1, 2), 13, 200), ((2, 0, 2), 14, 100)]
     vac_list = [
